@@ -218,6 +218,10 @@ func (e *DocumentError) SourceSubString() string {
 }
 
 func (e *DocumentError) pointerToTheErrorCharacter() string {
+	if e.file == nil || len(e.file.Content()) == 0 {
+		return "^"
+	}
+
 	e.preparation()
 
 	content := e.file.Content()
